@@ -590,7 +590,7 @@ def _stored_attributes(p) -> set:
 
 
 # ---------------------------------------------------------------------------------------------- mode sources
-def mode_sources(ctx, fn, e, bindings=None, _depth=0) -> set:
+def mode_sources(ctx, fn, e, bindings=None, _depth=0, _seen=frozenset()) -> set:
     """Where the value of `e` (evaluated inside `fn`) can come from, as a set of tags:
     "'r'" (a constant, by repr), "<arg:function:parameter>" (with `bindings` None: the function's own parameter),
     "self.<attribute>", or "?<text>" for anything else.  `bindings`: {parameter: set of tags} for a helper entered
@@ -598,7 +598,11 @@ def mode_sources(ctx, fn, e, bindings=None, _depth=0) -> set:
     p = ctx.p
     if _depth > 10 or e is None:
         return {"?" + unparse(e)}
-    S = lambda x: mode_sources(ctx, fn, x, bindings, _depth + 1)  # noqa: E731
+    if isinstance(e, ast.Name):
+        if e.id in _seen:
+            return set()  # `mode = self._mode if mode is None else mode`: the name's own sources are being collected already
+        _seen = _seen | {e.id}
+    S = lambda x: mode_sources(ctx, fn, x, bindings, _depth + 1, _seen)  # noqa: E731
     c = const_value(p, fn, e)
     if c is not None:
         return {repr(c.value)}
